@@ -4,6 +4,7 @@ CONSTANTS
   KeepFirstError = TRUE
   RecoverPerStage = TRUE
   FirstErrorWins = FALSE
+  ErrReadAtCompletion = TRUE
 SPECIFICATION MCSpec
 INVARIANTS AtMostOnce OnlyAfterAll ErrorReported ExactlyOnceAtEnd PendingSane
 PROPERTY Terminates
